@@ -50,12 +50,12 @@ abbrev Hdrs := CIDict Bytes Val
 
 /-! ### building -/
 
-/-- `f"{key}:{value}"` -/
-def hdrLine (p : Bytes × Bytes) : Bytes := p.1 ++ COLON :: p.2
+/-- `f"{key}:{value}"`; `sep` is the literal between name and value (`Gen.C01Ssdp.headerSep`) -/
+def hdrLine (sep : Bytes) (p : Bytes × Bytes) : Bytes := p.1 ++ (sep ++ p.2)
 
 /-- `build_ssdp_packet(status_line, headers)` (already encoded) -/
-def build (sl : Bytes) (hs : List (Bytes × Bytes)) : Bytes :=
-  sl ++ CR :: LF :: (joinCRLF (hs.map hdrLine) ++ [CR, LF, CR, LF])
+def build (sep : Bytes) (sl : Bytes) (hs : List (Bytes × Bytes)) : Bytes :=
+  sl ++ CR :: LF :: (joinCRLF (hs.map (hdrLine sep)) ++ [CR, LF, CR, LF])
 
 /-- `get_host_string` -/
 def hostString (a : Addr) : Bytes :=
@@ -67,8 +67,8 @@ def hostPortString (a : Addr) : Bytes :=
   if h.contains COLON then 91 :: h ++ 93 :: COLON :: natDec a.port else h ++ COLON :: natDec a.port
 
 /-- `build_ssdp_search_packet(target, mx, st)` -/
-def buildSearch (target : Addr) (mx : Bytes) (st : Bytes) : Bytes :=
-  build (ofString "M-SEARCH * HTTP/1.1")
+def buildSearch (sep : Bytes) (target : Addr) (mx : Bytes) (st : Bytes) : Bytes :=
+  build sep (ofString "M-SEARCH * HTTP/1.1")
     [(ofString "HOST", hostPortString target), (ofString "MAN", ofString "\"ssdp:discover\""),
      (ofString "MX", mx), (ofString "ST", st)]
 
@@ -140,6 +140,12 @@ def splitColons : Bytes → Bytes     -- `usn.partition("::")[0]`
 def udnFromUsn (usn : Bytes) : Option Bytes :=
   if startsWith (lower (usn.take 5)) (ofString "uuid:") then some (splitColons usn) else .none
 
+/-- `udn_from_usn(usn) if usn else None` on the first `usn` value -/
+def udnOf (pairs : List (Bytes × Bytes)) : Option Bytes :=
+  match mdGet pairs (ofString "usn") with
+  | some usn => if usn.isEmpty then .none else udnFromUsn usn
+  | .none => .none
+
 /-- `_cached_header_parse`: request line, parsed pairs, udn -/
 def headerParse (data : Bytes) : Except Exn (List (Bytes × Bytes) × Bytes × Option Bytes) :=
   let lines := linesOf data
@@ -147,11 +153,7 @@ def headerParse (data : Bytes) : Except Exn (List (Bytes × Bytes) × Bytes × O
   if !utf8Valid rl then .error .unicodeDecode
   else match parseLines (lines.drop 1) with
     | .error e => .error e
-    | .ok pairs =>
-      let udn := match mdGet pairs (ofString "usn") with
-        | some usn => if usn.isEmpty then .none else udnFromUsn usn
-        | .none => .none
-      .ok (pairs, rl, udn)
+    | .ok pairs => .ok (pairs, rl, udnOf pairs)
 
 /-! ### `get_adjusted_url` on a URL grammar -/
 
@@ -304,21 +306,26 @@ def kTimestamp := ofString "_timestamp"
 def kRemote := ofString "_remote_addr"
 def kLocal := ofString "_local_addr"
 
+/-- the `extra` dict of `_cached_decode_ssdp_packet` -/
+def extras (pairs : List (Bytes × Bytes)) (udn : Option Bytes) (a0 : Addr) : PyDict Bytes Val :=
+  let extra : PyDict Bytes Val := [(kHost, .str (hostString a0))]
+  let extra := match udn with
+    | some u => PyDict.set extra kUdn (.str u)
+    | .none => extra
+  let location := (mdGet pairs kLocation).getD []
+  if allPyWs location then extra
+  else PyDict.set (PyDict.set extra kLocOrig (.str location)) kLocation
+        (match adjustUrl location a0 with | some u => .str u | .none => .unk)
+
+/-- `CaseInsensitiveDict(parsed_headers, **extra)` -/
+def headersOf (pairs : List (Bytes × Bytes)) (udn : Option Bytes) (a0 : Addr) : Hdrs :=
+  CIDict.ofDict lower (PyDict.merge (mdToDict pairs) (extras pairs udn a0))
+
 /-- `_cached_decode_ssdp_packet(data, remote_addr_without_port)` -/
 def decodeCore (data : Bytes) (a0 : Addr) : Except Exn (Bytes × Hdrs) :=
   match headerParse data with
   | .error e => .error e
-  | .ok (pairs, rl, udn) =>
-    let extra : PyDict Bytes Val := [(kHost, .str (hostString a0))]
-    let extra := match udn with
-      | some u => PyDict.set extra kUdn (.str u)
-      | .none => extra
-    let location := (mdGet pairs kLocation).getD []
-    let extra :=
-      if allPyWs location then extra
-      else PyDict.set (PyDict.set extra kLocOrig (.str location)) kLocation
-            (match adjustUrl location a0 with | some u => .str u | .none => .unk)
-    .ok (rl, CIDict.ofDict lower (PyDict.merge (mdToDict pairs) extra))
+  | .ok (pairs, rl, udn) => .ok (rl, headersOf pairs udn a0)
 
 def withoutPort (a : Addr) : Addr := { a with port := 0 }
 
